@@ -243,6 +243,69 @@ static void check_timing(const DynCfg& c, vh::Rng& r) {
     measure(N0 + N1, N0 + N1 + N2, "release", nr);
 }
 
+//two differently configured processors of the same class fed the SAME short blocks alternately in one thread: each must follow its own
+//static characteristic (separately constructed instances never share anything)
+static void check_static_interleaved(const DynCfg& c, bool limiter, vh::Rng& r) {
+    DynCfg c2 = c;
+    c2.T = (c.T - 15 >= -50) ? c.T - r.uni(3, 15) : std::min(0.0, c.T + r.uni(3, 15));   //the constructors admit thresholds in [-50, 0] dB
+    c2.R = (c.R * 3) % 50 + 1;
+    c2.W = (c.W == 0) ? r.uni(1, 10) : 0.0;
+    const std::string cfg = vh::fmt("%s A(T=%.3f,R=%d,W=%.3f) and B(T=%.3f,R=%d,W=%.3f), zero attack/release, same blocks alternately", limiter ? "Limiter" : "Compressor", c.T, c.R, c.W, c2.T, c2.R, c2.W);
+    vh::begin_case(limiter ? "limiter_interleaved" : "compressor_interleaved", "%s", cfg.c_str());
+    std::vector<double> db;
+    for (int i = 0; i < 160; ++i) {
+        //plateaus: the same magnitude several times in a row, levels on both sides of both thresholds
+        const double v = r.uni(std::min(c.T, c2.T) - 25, 10);
+        const int rep = int(r.range(1, 4));
+        for (int k = 0; k < rep; ++k) {
+            db.push_back(v);
+        }
+    }
+    arr_real x(int(db.size()));
+    for (int i = 0; i < x.size(); ++i) {
+        x[i] = ((i % 2) ? -1.0 : 1.0) * std::pow(10.0, db[size_t(i)] / 20);
+    }
+    arr_real oa, ob;
+    vh::Hasher hh;
+    hh.s(cfg).u64(hash_arr(x));
+    vh::count(hh.get(), true);
+    vh::obs_add("interleaved_instance_pairs");
+    auto run = [&](auto& pa, auto& pb) {
+        int pos = 0;
+        while (pos < x.size()) {
+            const int len = std::min(x.size() - pos, int(r.range(1, 3)));
+            arr_real blk(len);
+            for (int i = 0; i < len; ++i) {
+                blk[i] = x[pos + i];
+            }
+            oa |= pa.process(blk).out;
+            ob |= pb.process(blk).out;
+            pos += len;
+        }
+    };
+    if (limiter) {
+        dl::Limiter pa(c.fs, c.T, c.W, 0.0, 0.0), pb(c.fs, c2.T, c2.W, 0.0, 0.0);
+        run(pa, pb);
+    } else {
+        dl::Compressor pa(c.fs, c.T, c.R, c.W, 0.0, 0.0), pb(c.fs, c2.T, c2.R, c2.W, 0.0, 0.0);
+        run(pa, pb);
+    }
+    for (int which = 0; which < 2; ++which) {
+        const DynCfg& cc = which ? c2 : c;
+        const arr_real& o = which ? ob : oa;
+        for (int i = 0; i < x.size() && i < o.size(); ++i) {
+            const ld xin = 20 * log10l(fabsl(ld(x[i])));
+            const ld want = curve(xin, cc.T, cc.W, limiter ? 0 : cc.R);
+            const ld got = 20 * log10l(fabsl(ld(o[i])));
+            if (!(fabsl(got - want) <= 1e-9L)) {
+                vh::violation(vh::fmt("C20/%s/instances_interfere", limiter ? "limiter" : "compressor"),
+                              cfg + vh::fmt(": object %c, sample %d: input %.6Lf dB -> output %.9Lf dB, its own static characteristic gives %.9Lf dB", which ? 'B' : 'A', i, xin, got, want));
+                return;
+            }
+        }
+    }
+}
+
 static void check_agc(double target, double indb, int avg, double maxgain, bool cplx, vh::Rng& r) {
     const std::string cfg = vh::fmt("Agc(target=%.4g, max_gain=%.1f dB, average_len=%d) on a %s constant-envelope input at %.1f dB", target, maxgain, avg, cplx ? "complex" : "real", indb);
     vh::begin_case("agc", "%s", cfg.c_str());
@@ -327,6 +390,8 @@ int main(int argc, char** argv) {
         c.rt = std::min(c.rt, 4.0);
         check_static(c, false, r, thorough);
         check_static(c, true, r, thorough);
+        check_static_interleaved(c, false, r);
+        check_static_interleaved(c, true, r);
         check_arbitrary(c, r, thorough ? 100000 : 20000);
         //time constants (bounded so that the run stays short)
         DynCfg tc = c;
@@ -351,6 +416,13 @@ int main(int argc, char** argv) {
             const int avg = (t % 4 == 0) ? 1 : ((t % 4 == 1) ? 1000 : int(r.range(2, 999)));
             const double mg = (t % 3 == 0) ? r.uni(10, 40) : 60.0;
             check_agc(target, indb, avg, mg, (t % 2) == 0, r);
+            if (t % 3 == 1) {
+                //weak inputs (-100 .. -62 dBFS) with a target the loop can still reach inside max_gain = 60 dB
+                const double wdb = r.uni(-100, -62);
+                const double wt = std::pow(10.0, wdb / 10) * std::pow(10.0, r.uni(10, 56) / 10);
+                check_agc(wt, wdb, avg, 60.0, (t % 2) == 1, r);
+                vh::obs_add("agc_runs_with_weak_input");
+            }
         }
     }
     vh::sample("Agc: targets 0.01..100, input levels -60..+20 dB, averaging lengths 1..1000, complex exponentials and real constant-envelope inputs in random frames; settled power within 1% when the needed gain is below max_gain");
